@@ -269,7 +269,7 @@ pub fn gen_obs_history(rng: &mut Rng, shared: bool, min: usize, max: usize) -> O
         };
         ops.push(op);
     }
-    ObsHistory { shared, init: gen_val(rng), ops }
+    ObsHistory { shared, init: gen_val(rng), ops, many: 0 }
 }
 
 fn record(ev: &mut Ev, f: &OFacts) {
@@ -400,7 +400,7 @@ fn exh(
         };
         let mut leaf = 0u64;
         dfs(sh, &mut prefix, d, focus, max_subs, &mut |ops| {
-            let h = ObsHistory { shared: *shared, init: A, ops: ops.to_vec() };
+            let h = ObsHistory { shared: *shared, init: A, ops: ops.to_vec(), many: 0 };
             let case = json!({"gen": gen_name, "case": i, "leaf": leaf});
             judge_flavours(prop, flv, &h, &case, out, nt);
             leaf += 1;
@@ -432,7 +432,21 @@ fn rand(
     p.cases(gen_name, n, |i, out| {
         let mut rng = Rng::new(mix(seed, mix(hash_of(&gen_name), i)));
         let shared = rng.chance(2, 3);
-        let h = gen_obs_history(&mut rng, shared, min, max);
+        let mut h = gen_obs_history(&mut rng, shared, min, max);
+        if i % 8 == 7 {
+            // many subscribers, clones and weak references at once (and so many registered wakers)
+            h.many = 16;
+            let extra: Vec<OOp> = (0..rng.range(8, 24))
+                .map(|k| match k % 4 {
+                    0 => OOp::Subscribe(k),
+                    1 => OOp::Clone(k),
+                    2 => OOp::SClone(k),
+                    _ => OOp::Poll(k),
+                })
+                .collect();
+            let at = rng.below(h.ops.len() / 2 + 1);
+            h.ops.splice(at..at, extra);
+        }
         let case = json!({"gen": gen_name, "case": i, "seed": seed});
         judge_flavours(prop, flv, &h, &case, out, nt);
     })
